@@ -4,12 +4,14 @@
   fields of the engine model's `Tx`.
 -/
 import Coraza.Model.Engine
+import Coraza.Model.Decode
 namespace Coraza.Engine
 open Coraza
 
 /-- Close: `tx.variables.reset()` empties every collection; nothing else is reset there -/
 def closeTx (tx : Tx) : Tx :=
-  { tx with rl := {}, argsGet := {}, argsPost := {}, argsPath := {}, reqHeaders := {}, txc := {}, matchedVars := {},
+  { tx with rl := {}, argsGet := {}, argsPost := {}, argsPath := {}, reqHeaders := {}, reqCookies := {}, respHeaders := {},
+            txc := {}, matchedVars := {},
             matchedVar := [], matchedVarName := [], highestSeverity := 0, respStatus := [] }
 
 /-- newTransaction on the object the pool hands back: the listed assignments, then the
@@ -26,10 +28,15 @@ def newTx (mode : EngineMode) (old : Tx) (ae : AuditEngine := .off) (parts : Byt
 def freshTx (mode : EngineMode) : Tx := newTx mode {}
 
 /-- feeding the request of a test case into a transaction (API Add* calls) -/
-def feed (tx : Tx) (get post hdr : List (Bytes × Bytes)) : Tx :=
+def feed (tx : Tx) (get post hdr : List (Bytes × Bytes)) (rhdr : List (Bytes × Bytes) := []) : Tx :=
   let addAll (m : CMap) (ps : List (Bytes × Bytes)) : CMap := ps.foldl (fun m p => m.add p.1 p.2) m
-  -- transaction.go:377 AddRequestHeader ignores a header with an empty name
+  -- transaction.go:377 AddRequestHeader ignores a header with an empty name; a `Cookie` header (any spelling)
+  -- is split into the cookies, in the order of the header (:391-411)
+  let cookies := (hdr.filter fun p => lower p.1 == Bytes.ofString "cookie").flatMap fun p => Decode.parseCookies p.2
   { tx with argsGet := addAll tx.argsGet get, argsPost := addAll tx.argsPost post,
-            reqHeaders := addAll tx.reqHeaders (hdr.filter fun p => !p.1.isEmpty) }
+            reqHeaders := addAll tx.reqHeaders (hdr.filter fun p => !p.1.isEmpty),
+            reqCookies := addAll tx.reqCookies cookies,
+            -- :418 AddResponseHeader
+            respHeaders := addAll tx.respHeaders (rhdr.filter fun p => !p.1.isEmpty) }
 
 end Coraza.Engine
